@@ -2,7 +2,7 @@
 import core, suites, findings
 from core import World, parse_fs, Line
 from gen import Gen, mode_line
-from suites import gen_history, emit_exec, exp_silent, exp_same_fs, run_suite, parse_snap, esc, snap_file_suffix, mutate_call
+from suites import gen_history, emit_exec, exp_silent, exp_same_fs, run_suite, parse_snap, parse_snap_scan, esc, snap_file_suffix, mutate_call
 
 LEAN_MODULES = ['GoSnaps.Props.C04', 'GoSnaps.Props.C04World', 'GoSnaps.Props.Tie.Escape', 'GoSnaps.Props.Tie.SnapshotIO', 'GoSnaps.Props.Tie.Flows', 'GoSnaps.Props.Tie.EndToEnd']
 UPD_MODES = [(False, 'true', 'none'), (False, '', 'true'), (False, 'other', 'true'), (False, 'clean', 'true')]
@@ -18,7 +18,14 @@ def make_spec(g, allow):
                 m, tag = mutate_call(g, c)
                 if m is not None:
                     changed[(ei, k)] = m
-    return dict(cfgs=h.cfgs, execs=h.execs, flags=set(h.flags), changed=changed, mode=r.choice(UPD_MODES), edit=suites.edit_choice(r, h.execs))
+    spec = dict(cfgs=h.cfgs, execs=h.execs, flags=set(h.flags), changed=changed, mode=r.choice(UPD_MODES))
+    # the recorded files as a checkout with core.autocrlf leaves them: the update still finds and
+    # replaces exactly the changed entries (entries compared as the line scanner sees them)
+    spec['crlf'] = r.choice(suites.CRLF_MODES) if r.random() < 0.12 and 'cr' not in spec['flags'] and 'big' not in allow else None
+    if spec['crlf']:
+        spec['flags'].add('crlf-file')
+    spec['edit'] = None if spec['crlf'] else suites.edit_choice(r, h.execs)
+    return spec
 
 
 def render(tag, spec):
@@ -35,7 +42,10 @@ def render(tag, spec):
         rec[ei] = emit_exec(w, texec, name, calls)
     if spec.get('edit'):
         w.add('fsedit ' + spec['edit'])
-    ps = suites.parse_snap_edited if spec.get('edit') else parse_snap
+    if spec.get('crlf'):
+        for op in suites.crlf_ops(spec['cfgs'], spec['crlf']):
+            w.add(op)
+    parse = parse_snap_scan if spec.get('crlf') else (suites.parse_snap_edited if spec.get('edit') else parse_snap)
     ref = w.add('fsdump')
     ci, upd, cfgupd = spec['mode']
     w.add('reset')
@@ -89,7 +99,7 @@ def render(tag, spec):
             if b'_%d' in p:
                 continue
             if p.endswith((b'.snap', b'.snap.txt', b'.snap.yaml')) and not any(ch.isdigit() for ch in p.rsplit(b'/', 1)[1].split(b'.snap')[0][-2:].decode('latin1')):
-                ea, eb = ps(a[p]), ps(b[p])
+                ea, eb = parse(a[p]), parse(b[p])
                 if ea is None or eb is None:
                     return 'file %r is not well formed' % p
                 if [x[0] for x in ea] != [x[0] for x in eb]:
@@ -116,6 +126,38 @@ def render(tag, spec):
     return w
 
 
+def fixed_worlds(ctx):
+    """deterministic boundary cases: one entry is updated while ANOTHER entry of the same file holds a
+    single line of exactly / just below / just above 4096 and 65536 bytes (before and after the
+    updated entry); new values that are templates for regexp.Expand ($1, $name, ${name}); files with
+    CR LF line endings"""
+    from gen import Call, cfg_line, MIDLINE
+    worlds = []
+
+    def mk(tag, execs, changed, mode=UPD_MODES[0], crlf=None):
+        for ei, (name, calls) in enumerate(execs):
+            for k, (cfgno, c) in enumerate(calls):
+                c.uid = (ei, k)
+        return render(tag, dict(cfgs=[cfg_line(1, 'snaps')], execs=execs, flags=set(), changed=changed, mode=mode, crlf=crlf))
+    sizes = [4095, 4096, 4097, 8192, 65536] + ([65535, 65537, 131072, 70000] if ctx.tier == 'thorough' else [])
+    for n in sizes:
+        for order in (0, 1):
+            long_ = (b'TestLongLine', [(1, Call('snap', b'head\n' + MIDLINE(n) + b'\ntail')), (1, Call('snap', MIDLINE(n)))])
+            small = (b'TestSmall', [(1, Call('snap', b'old value')), (1, Call('snap', b'stays'))])
+            execs = [long_, small] if order == 0 else [small, long_]
+            worlds.append(mk('c04-longline-%d-%d' % (n, order), execs, {(1 - order, 0): Call('snap', b'new value\nlonger')}, UPD_MODES[(n + order) % len(UPD_MODES)]))
+    tmpl = [b'DATA_DIR: ${HOME}/data', b'PATH=$PATH:/bin', b'price: $10 per unit', b'$1$2', b'a$b$', b'$$', b'${', b'\\1 $0 $&', b'50% of $x']
+    execs = [(b'TestTemplate', [(1, Call('snap', b'old %d' % i)) for i in range(len(tmpl))]), (b'TestOther', [(1, Call('snap', b'$keep ${this} $1'))])]
+    worlds.append(mk('c04-template-values', execs, {(0, i): Call('snap', t + b'\nsecond $line') for i, t in enumerate(tmpl)}))
+    execs = [(b'TestTemplateY', [(1, Call('yaml', b'v: %d\n' % i, 's')) for i in range(3)] + [(1, Call('json', b'{"v": 1}', 's'))])]
+    worlds.append(mk('c04-template-docs', execs, {(0, 0): Call('yaml', b'DATA_DIR: ${HOME}/data\nprice: $10\n', 's'), (0, 1): Call('yaml', b'a: $1\n---\nb: $PATH\n', 'b'),
+                                                  (0, 3): Call('json', b'{"v": "$1 ${name} $name"}', 's')}))
+    for mode in ('all', 'odd', 'even'):
+        execs = [(b'TestA', [(1, Call('snap', b'a one')), (1, Call('snap', b'a\ntwo\n'))]), (b'TestB', [(1, Call('snap', b'b one')), (1, Call('snap', b'---\nb two'))])]
+        worlds.append(mk('c04-crlf-%s' % mode, execs, {(0, 1): Call('snap', b'a\nTWO\nlonger\n'), (1, 0): Call('snap', b'')}, UPD_MODES[1], crlf=mode))
+    return worlds
+
+
 def known(w, p):
     if p['kind'] != 'expect':
         return None
@@ -131,7 +173,10 @@ def run(ctx):
     n = 150 if ctx.tier == 'quick' else 4000
     worlds = []
     for i in range(n):
-        spec = make_spec(g, ('shadow',) if g.r.random() < 0.06 else (('big',) if g.r.random() < 0.05 else ()))
+        k = g.r.random()
+        # `mid`: single lines around 4096 / 8192 bytes (the buffer sizes of bufio.Reader and of the
+        # scanner's first window) in entries NEXT TO the ones that are updated
+        spec = make_spec(g, ('shadow',) if k < 0.06 else (('big',) if k < 0.11 else (('mid',) if k < 0.21 else ())))
         # give every call an identity that survives structural shrinking
         ch = {}
         for ei, (name, calls) in enumerate(spec['execs']):
@@ -139,5 +184,6 @@ def run(ctx):
                 c.uid = (ei, k)
         spec['changed'] = {key: m for key, m in spec['changed'].items()}
         worlds.append(render('c04-%d' % i, spec))
+    worlds += fixed_worlds(ctx)
     run_suite(ctx, 'match.update', worlds, known=known, chunk=200)
     findings.report(ctx, 'C04')
